@@ -147,11 +147,18 @@ NewF(st, cfg, mode) ==
 CloseF(st) ==
     IF st.phase # "live" THEN Refuse("bad_state") ELSE Ok(Uninit)
 
+\* ECMA-119 6.5.1 / 10.3: below interchange level 3 a file is one extent, so less than 4 GiB; at
+\* level 3 and 4 a larger file becomes several records with the same identifier (which is the one
+\* lawful repetition of an identifier - it is still one entry of the directory).  BlobLen is
+\* capped at 2^31-1 for such contents (TLC integers).
+IsHuge(b) == b \in DOMAIN BlobLen /\ BlobLen[b] >= 2147483647
+
 AddFpF(st, b, ip, jp, up) ==
     IF st.phase # "live" THEN Refuse("bad_state")
     ELSE IF ~Given(ip) /\ ~Given(jp) /\ ~Given(up) THEN Refuse("no_path")
     ELSE
-      LET why == FirstWhy(<<IF Given(ip) THEN AddWhy(st, "iso", ip, "file") ELSE "",
+      LET why == FirstWhy(<<IF IsHuge(b) /\ st.cfg.level < 3 THEN "too_big_for_level" ELSE "",
+                            IF Given(ip) THEN AddWhy(st, "iso", ip, "file") ELSE "",
                             IF Given(jp) THEN AddWhy(st, "jol", jp, "file") ELSE "",
                             IF Given(up) THEN AddWhy(st, "udf", up, "file") ELSE "">>)
           i   == FreshIno(st)
